@@ -281,12 +281,14 @@ def parse_template(path):
                     elif d.startswith("insert-before "):
                         target = []
                         fs.insert_before.append((d[len("insert-before "):].strip()[1:-1], target))
-                    elif d.startswith("before "):
+                    elif re.match(r"before(#\d+)? ", d):
                         target = []
-                        fs.before.append((d[len("before "):].strip().strip('"'), target))
-                    elif d.startswith("after "):
+                        mm = re.match(r"before(?:#(\d+))? (.*)$", d)
+                        fs.before.append((mm.group(2).strip().strip('"'), target, int(mm.group(1)) if mm.group(1) else None))
+                    elif re.match(r"after(#\d+)? ", d):
                         target = []
-                        fs.after.append((d[len("after "):].strip().strip('"'), target))
+                        mm = re.match(r"after(?:#(\d+))? (.*)$", d)
+                        fs.after.append((mm.group(2).strip().strip('"'), target, int(mm.group(1)) if mm.group(1) else None))
                     elif d == "body-start":
                         target = fs.body_start
                     elif d.startswith("from "):
@@ -448,8 +450,10 @@ def _process_body(fs, body, src, b0, applied, out, tail_check=True):
         offs.append(o)
         o += len(ln) + 1
     for kind, lst in (("before", fs.before), ("after", fs.after)):
-        for anchor, lines in lst:
+        for anchor, lines, nth in lst:
             hits = [i_ for i_, ln in enumerate(blines) if _norm(anchor) in _norm(ln)]
+            if nth is not None and len(hits) >= nth:
+                hits = [hits[nth - 1]]      # the n-th occurrence was asked for explicitly
             if len(hits) != 1:
                 _hint_lost("lost anchor: %s: %r matches %d body lines" % (fs.id, anchor, len(hits)))
                 # lenient: an ambiguous anchor gets the hint at every match, a missing one gets none
